@@ -2,3 +2,4 @@
 from vlib import driver
 
 driver("drv_lru", variant="asan")
+driver("drv_kdtree", variant="asan")
